@@ -57,6 +57,10 @@ pub mod task {
         Sleep(simrt::sleep(dur))
     }
 
+    pub async fn yield_now() {
+        simrt::yield_now().await
+    }
+
     pub fn block_on<F: Future>(_future: F) -> F::Output {
         unimplemented!("verif stub: block_on is not used under simulation")
     }
